@@ -25,7 +25,7 @@ PROP_STYLES = {
     "symbolic": ["$", "日本", "é", "%", "a b", "x.y", "@type", "_"],
 }
 TAGS = ["pets", "store", "users", "billing", "admin ops", "Reports"]
-METHODS = ["get", "post", "put", "patch", "delete"]
+METHODS = ["get"] * 3 + ["post"] * 3 + ["put"] * 2 + ["patch"] * 2 + ["delete"] * 2 + ["options", "trace"]
 
 
 def ref(name: str) -> dict:
@@ -221,7 +221,14 @@ class Gen:
 
     def add_enum(self, name: str) -> None:
         r = self.rng
-        if r.random() < 0.7:
+        k = r.random()
+        if k < 0.15:
+            # values whose derived member names collide, together with a value that looks like the de-duplicated name
+            vals = list(r.choice([["v1", "V1", "v1-1"], ["x y", "x_y", "X-Y", "x_y_1"], ["a.b", "a b", "A_B_2", "a-b", "a_b"], ["Up", "up", "UP", "up_1", "UP_2"]]))
+            r.shuffle(vals)
+            self.schemas[name] = {"type": "string", "enum": vals}
+            self.features.add("enum_member_name_collisions")
+        elif k < 0.7:
             vals: list[Any] = r.sample(["red", "green", "blue", "dark-blue", "Light Grey", "x1", "UPPER"], r.randint(2, 5))
             if "enum_sunder_value" in self.allow:
                 vals.append("_x_")
@@ -335,6 +342,10 @@ class Gen:
             return ref(t), {"kind": "ref_alias", "target": t}
         if objs and k < 0.6:
             t = r.choice(objs)
+            if r.random() < self.prof.get("p_nullable_response", 0.0):
+                # "the object or null": the OpenAPI 3.0 spelling of a nullable reference
+                self.features.add("nullable_response")
+                return {"allOf": [ref(t)], "nullable": True}, {"kind": "ref", "target": t, "nullable": True}
             return ref(t), {"kind": "ref", "target": t}
         if objs and k < 0.8:
             t = r.choice(objs)
@@ -363,6 +374,9 @@ class Gen:
             path += "/{" + p["name"] + "}"
             if i == 0 and r.random() < 0.3:
                 path += "/sub"
+        if r.random() < 0.12:
+            path += "/"          # a trailing slash is part of the template: /reports/ and /reports are different resources
+            self.features.add("path_trailing_slash")
         for loc in ("query", "header"):
             if r.random() < self.prof["p_param"]:
                 for i in range(r.randint(1, 3)):
@@ -378,7 +392,7 @@ class Gen:
             self.features.add("cookie_param")
         op: dict[str, Any] = {}
         shape = r.choice(["camel", "snake", "absent", "fastapi"]) if "opid_shapes" in self.prof else r.choice(["camel", "snake"])
-        verbs = {"get": "get", "post": "create", "put": "replace", "patch": "update", "delete": "remove"}
+        verbs = {"get": "get", "post": "create", "put": "replace", "patch": "update", "delete": "remove", "options": "describe", "trace": "echo"}
         noun = r.choice(["Thing", "Item", "Record", "Entry"]) + str(n)
         if shape == "camel":
             op["operationId"] = f"{verbs[method]}{noun}"
@@ -500,7 +514,10 @@ class Gen:
         is_stream = rexp.get(primary, {}).get("content") in ("sse", "binary", "ndjson")
         if is_stream and "stream_with_secondary_2xx" in self.allow:
             self.features.add("stream_with_secondary_2xx")
-        if r.random() < self.prof["p_multi2xx"] and (not is_stream or "stream_with_secondary_2xx" in self.allow):
+        # (an inline schema repeated under two statuses is two anonymous schemas, hence two classes: that belongs to the
+        # trigger class 'multi_2xx_different_schema'; a nullable-reference response therefore stays the only 2xx)
+        inline_nullable = bool((rexp.get(primary, {}).get("schema") or {}).get("nullable"))
+        if r.random() < self.prof["p_multi2xx"] and (not is_stream or "stream_with_secondary_2xx" in self.allow) and not inline_nullable:
             second = r.choice([c for c in ["200", "201", "202", "204"] if c != primary])
             if second == "204":
                 responses[second] = {"description": "nothing"}
@@ -521,7 +538,8 @@ class Gen:
                 rexp[second] = copy.deepcopy(rexp[primary])
             self.features.add("multi_2xx")
         if r.random() < self.prof["p_errors"]:
-            for code in r.sample(["400", "401", "403", "404", "409", "422", "429", "500", "502", "503"], r.randint(1, 3)):
+            for code in r.sample(["400", "401", "403", "404", "409", "422", "429", "500", "502", "503",
+                                  "402", "418", "420", "451", "499", "507", "529", "599"], r.randint(1, 3)):
                 responses[code] = {"description": f"error {code}"}
                 rexp[code] = {"error": True}
                 if r.random() < self.prof.get("p_error_stream", 0.0):
